@@ -225,14 +225,16 @@ def key(p):
 
 
 def predictions(c):
-    return {frozenset(x["dev"]): x["r"] for x in c["preds"]}
+    """deviation set -> set of outcome classes the model allows (more than one only where the
+    position of the hook firing in a catch-and-continue loop decides)."""
+    return {frozenset(x["dev"]): set(x["r"]) for x in c["preds"]}
 
 
 def explain(c, real):
-    """Smallest deviation set under which the model predicts the observed class."""
+    """Smallest deviation set under which the model allows the observed class."""
     best = None
     for dev, r in predictions(c).items():
-        if r == real and (best is None or len(dev) < len(best) or (len(dev) == len(best) and sorted(dev) < sorted(best))):
+        if real in r and (best is None or len(dev) < len(best) or (len(dev) == len(best) and sorted(dev) < sorted(best))):
             best = dev
     return best
 
@@ -317,7 +319,7 @@ def run(tier: str) -> int:
     if never:
         raise common.TLCError(f"actions never taken in the model-checking runs (vacuity): {never}")
     demos = {}
-    for name, inv in (("pcall_survives", True), ("pcall_loop", False), ("coroutine", False), ("hookctl", False), ("nested", False)):
+    for name, inv in (("pcall_survives", True), ("loop_escape", True), ("pcall_loop", False), ("coroutine", False), ("hookctl", False), ("nested", False)):
         r = tlc("MC_LuaTimeout", f"Demo_LuaTimeout_{name}.cfg", workers=1, check=False)
         bad = bool(r.invariant_violated) if inv else bool(re.search(r"Temporal propert(y|ies) .*violated", r.out))
         demos[name] = bad
@@ -370,7 +372,8 @@ def run(tier: str) -> int:
         o.sample({"program": key(cases[len(cases) // 2]), "lua": render(cases[len(cases) // 2]["body"], cases[len(cases) // 2]["wrap"])[-300:]})
         o.extra["observed_classes"] = {k: sum(1 for v in observed.values() if v == k) for k in sorted(set(observed.values()))}
         # ---- histories: several programs that do end, one context, then the benign invocations
-        ending = [c for c in cases if observed[key(c)] in ("aborted", "error", "returned")]
+        ending = [c for c in cases if observed[key(c)] in ("aborted", "error", "returned")
+                  and not any("hung" in r for r in predictions(c).values())]
         hists = []
         nh = 24 if thorough else 6
         for _ in range(nh):
@@ -495,7 +498,7 @@ def selftest() -> int:
         print("tight loop, no wrapper: observed", run0["cls"], "demanded", c["demand"])
         ok &= real == c["demand"]
         # (1) corrupt the expectation: demand 'returned' for the bare loop -> must be reported
-        c2 = dict(c, demand="returned", preds=[dict(x, r="returned") for x in c["preds"]])
+        c2 = dict(c, demand="returned", preds=[dict(x, r=["returned"]) for x in c["preds"]])
         o2 = Outcome(PID, "quick")
         judge(o2, c2, run0, None, None, "selftest")
         print("with a corrupted expectation:", len(o2.violations), "violation(s)")
